@@ -72,6 +72,18 @@ def real_bindcallsig(req):
 
 
 @functools.lru_cache(maxsize=20000)
+def dec_obj(kind, names, **kw):
+    """decorator objects are made once per selection and reused for every function they are applied to
+    (a decorator kept in a variable and applied to a family of functions)"""
+    return getattr(modifiers, kind)(*names, **dict(kw))
+
+
+@functools.lru_cache(maxsize=20000)
+def auto_dec(ex):
+    return modifiers.autokwoargs(exceptions=list(ex))
+
+
+@functools.lru_cache(maxsize=20000)
 def decorated_stacked(ps, P, W, order):
     """the two selections applied by two stacked decorators (in either order) instead of one translator"""
     f = base_func(tuple(ps))
@@ -79,9 +91,9 @@ def decorated_stacked(ps, P, W, order):
         with warnings.catch_warnings():
             warnings.simplefilter('ignore')
             if order == 'pw':
-                dec = modifiers.kwoargs(*W)(modifiers.posoargs(*P)(f))
+                dec = dec_obj('kwoargs', W)(dec_obj('posoargs', P)(f))
             else:
-                dec = modifiers.posoargs(*P)(modifiers.kwoargs(*W)(f))
+                dec = dec_obj('posoargs', P)(dec_obj('kwoargs', W)(f))
     except Exception as e:  # noqa
         return core.canon_exc(e)
     return ('ok', dec, None)
@@ -114,9 +126,9 @@ def decorated(ps, P, W, method=False):
             if P and W:
                 dec = modifiers._PokTranslator(f, posoargs=P, kwoargs=W)
             elif P:
-                dec = modifiers.posoargs(*P)(f)
+                dec = dec_obj('posoargs', P)(f)
             elif W:
-                dec = modifiers.kwoargs(*W)(f)
+                dec = dec_obj('kwoargs', W)(f)
             else:
                 dec = f
     except Exception as e:  # noqa
@@ -136,7 +148,10 @@ def real_deccall(req):
     a, k = call_values(args, kw)
     try:
         if method:
-            d = r[1]().m(*a, **k)
+            if (len(a) + len(k)) % 2:
+                d = r[1].m(r[1](), *a, **k)      # through the class, receiver passed by hand
+            else:
+                d = r[1]().m(*a, **k)
             d = {x: v for x, v in d.items() if x != 'self'}
         else:
             d = r[1](*a, **k)
@@ -229,14 +244,14 @@ def real_names(req):
         if op == 'autonames':
             _, ex, ps = req
             f = base_func(tuple(ps))
-            dec = modifiers.autokwoargs(exceptions=list(ex))(f) if ex else modifiers.autokwoargs(f)
+            dec = auto_dec(tuple(ex))(f) if ex else modifiers.autokwoargs(f)
         else:
             _, st, extra, ps = req
             f = base_func(tuple(ps))
             if op == 'startnames':
-                dec = modifiers.kwoargs(*extra, start=st)(f)
+                dec = dec_obj('kwoargs', tuple(extra), start=st)(f)
             else:
-                dec = modifiers.posoargs(*extra, end=st)(f)
+                dec = dec_obj('posoargs', tuple(extra), end=st)(f)
     except ValueError as e:
         return core.canon_exc(e)
     if isinstance(dec, modifiers._PokTranslator):
